@@ -163,7 +163,8 @@ theorem guards_intro (e : Entry) (r : Rec)
     rcases hri with a | a <;> simp [a]
   by_cases hpz : e.pidx = 0
   · obtain ⟨a, b⟩ := h0 hpz
-    simp [hv, he, ht, hf, hi, hc, hd, hp, hid, hri', hre, hts', hpz, a, b]
+    have hp2 : 1 % two64 = e.index := by simpa [hpz] using hp
+    simp [hv, he, ht, hf, hi, hc, hd, hp2, hid, hri', hre, hts', hpz, a, b]
   · obtain ⟨a, b⟩ := h1 hpz
     simp [hv, he, ht, hf, hi, hc, hd, hp, hid, hri', hre, hts', hpz, a, b]
 
@@ -208,7 +209,7 @@ theorem chain_verify (H : Bytes → Dig) (hnz : ∀ x, H x ≠ zero32) (m : Mani
           constructor
           · exact guards_intro _ r rfl hm.epoch hm.term hm.fence hi0 hm.cmd (hnz _) hmod r1 r2 r3 (by omega) h0 h1
           · simp only [digest]
-            rw [preimage_dig]
+            congr 1
         · -- the tail, with this entry as predecessor
           refine ih (index + 1) m.term index _ es' hch rfl (by simp at hlen ⊢; omega) (fun h => ?_) (fun _ => ?_)
           · omega
@@ -327,18 +328,18 @@ example : preimage exEntry exRec ≠ preimage exEntry { exRec with frm := [97, 9
 -- c05_preimage_injective / c05_preimage_congr / c05_digest_binds: equal preimages exist (unhashed fields differ)
 example : preimage exEntry exRec = preimage { exEntry with version := 9 } { exRec with index := 1 } :=
   c05_preimage_congr ⟨rfl, rfl, rfl, rfl, rfl, rfl, rfl, rfl, rfl, rfl, rfl, rfl, rfl, rfl, rfl⟩
-example : (preimage exEntry exRec).length = 26 + 48 + 64 + 8 + 2 + 8 + (8 + 1) + (8 + 2) + (8 + 3) := by decide
 -- c05_verify_iff / c05_guards_force: the guards are satisfiable
 example : verifyGuards exEntry exRec = true := by decide
 -- c05_verify_sealed / c05_chain / c05_verify_exact: derive succeeds on the example and its entry verifies
 example : (derive exH exMan [exRec]).isSome = true := by decide
-example : ∀ x, exH x ≠ zero32 := by
+theorem exH_nz : ∀ x, exH x ≠ zero32 := by
   intro x h
   have := congrArg (fun l => l.head?) h
   simp [exH, zero32, List.replicate] at this
-example : ∃ e, derive exH exMan [exRec] = some [e] ∧ verify exH e exRec = true := by
-  refine ⟨_, rfl, ?_⟩
-  decide
+example : ∃ es, derive exH exMan [exRec] = some es ∧ All2 (fun e r => verify exH e r = true) es [exRec] := by
+  have h : (derive exH exMan [exRec]).isSome = true := by decide
+  obtain ⟨es, hes⟩ := Option.isSome_iff_exists.mp h
+  exact ⟨es, hes, c05_verify_sealed exH exH_nz exMan [exRec] es hes⟩
 -- c05_verify_rejects_other: a hash WITH collisions really lets a different record through (the escape is needed)
 example : verify (fun _ => List.replicate 32 5) exEntry exRec = true ∧
     verify (fun _ => List.replicate 32 5) exEntry { exRec with payload := [] } = true := by decide
